@@ -141,10 +141,13 @@ def describe_spec(name, spec, annotation=None):
                 d.custom = True
             return d
         if ser is not None and par is not None and _is_enum_typespec(ser) and _is_enum_typespec(par):
+            # the declaration is the (size, byteorder) that type_spec() was called with; both
+            # lambdas capture it.  Whether each of them honours it is what the run decides.
             sv, pv = _closure_vars(ser), _closure_vars(par)
-            size, order = sv.get('size'), sv.get('byteorder')
-            if size != pv.get('size') or order != pv.get('byteorder'):
-                raise Unsupported(f'{name}: enum spec with different size/byteorder in parser and serializer')
+            size = sv.get('size', pv.get('size'))
+            order = sv.get('byteorder', pv.get('byteorder'))
+            if size == 1 and order is None:
+                order = 'little'
             if not isinstance(size, int) or not 1 <= size <= 8 or order not in ('little', 'big'):
                 raise Unsupported(f'{name}: enum spec size={size!r} byteorder={order!r}')
             return FD(name, 'uint', size=size, big=(order == 'big'), enum=pv.get('cls'))
